@@ -9,7 +9,7 @@ sys.path.insert(0, HERE)
 import props
 
 def run_seed(name):
-    d = os.path.join(VERIF, "seeded", name)
+    d = os.path.join(VERIF, SET, name)
     w = tempfile.mkdtemp(prefix="seedrun.")
     wt = os.path.join(w, "wt")
     try:
@@ -36,8 +36,16 @@ def run_seed(name):
         subprocess.run(["git", "-C", "/repo", "worktree", "remove", "--force", wt], capture_output=True)
         shutil.rmtree(w, ignore_errors=True)
 
+SET = "seeded"
+
+
 def main():
-    names = sys.argv[1:] or sorted(n for n in os.listdir(os.path.join(VERIF, "seeded")) if os.path.isdir(os.path.join(VERIF, "seeded", n)))
+    global SET
+    args = sys.argv[1:]
+    if args and args[0] == "--benign":
+        SET = "benign"
+        args = args[1:]
+    names = args or sorted(n for n in os.listdir(os.path.join(VERIF, SET)) if os.path.isdir(os.path.join(VERIF, SET, n)))
     res = {}
     with ThreadPoolExecutor(max_workers=6) as ex:
         for name, fired, err in ex.map(run_seed, names):
@@ -47,8 +55,10 @@ def main():
                 print("%-7s ERROR %s" % (name, err))
                 continue
             tag = "CAUGHT" if own in fired else ("caught-by-other" if fired else "MISSED")
+            if SET == "benign":
+                tag = "FALSE-ALARM" if fired else "silent"
             print("%-7s %-15s %s" % (name, tag, {k: v[:3] for k, v in fired.items()}))
-    json.dump(res, open(os.path.join(VERIF, "seeded", "RESULTS.json"), "w"), indent=1, sort_keys=True)
+    json.dump(res, open(os.path.join(VERIF, SET, "RESULTS.json"), "w"), indent=1, sort_keys=True)
     n = sum(1 for k, v in res.items() if k.split("-")[0] in v)
     print("caught by own property's check: %d / %d; by any: %d" % (n, len(res), sum(1 for v in res.values() if v and "error" not in v)))
 
